@@ -183,6 +183,35 @@ theorem C03_keys_independent (s : State) (h : Nat) (hd : Handle) (k : Nat) (hh :
   all_goals repeat' split
   all_goals simp [State.setEnt, State.setSt, State.dropHandle, State.removeKey, State.wedge, touch_ent, upd, hk]
 
+/-- a handle that sleeps: queued on a per-key mutex that has not been handed to it -/
+def Sleeping (s : State) (h : Nat) : Prop :=
+  ∃ hd m, s.hs h = some hd ∧ hd.st = .queued ∧ s.ent hd.key = some m ∧ m.holder ≠ some h
+
+/-- **No library-made deadlock, global form**: in every reachable state in which some handle is alive, some live
+handle is NOT sleeping — it is a guard (its owner can use and drop it), a waiter that already owns the lock
+(its next poll completes), or a handle whose next step needs no other party (`replica`, `failedTry`): the
+library never produces a state in which everybody waits for somebody else. With clients that follow a
+deadlock-free discipline (so that the owner of a non-sleeping handle is not itself blocked in another call
+forever) and a fair scheduler, every waiter is eventually served (FIFO: `C03_rank`, hand-off: `C03_handoff`). -/
+theorem C03_never_all_sleeping (kind : Kind) (as : List Act) (h : Nat) (hd : Handle) :
+    let s := run (State.init kind) as
+    s.hs h = some hd → ∃ g, (∃ gd, s.hs g = some gd) ∧ ¬ Sleeping s g := by
+  intro s hh
+  have hi : Inv s := inv_reachable kind as
+  by_cases hs : Sleeping s h
+  · obtain ⟨hd', m, e1, e2, e3, e4⟩ := hs
+    obtain ⟨g, gd, a1, a2, a3, a4, a5⟩ := C03_waits_only_for_holder kind as h hd' m e1 e2 e3 e4
+    refine ⟨g, ⟨gd, a3⟩, ?_⟩
+    rintro ⟨gd', m', b1, b2, b3, b4⟩
+    have hgd : gd' = gd := by
+      have : (run (State.init kind) as).hs g = some gd := a3
+      rw [this] at b1; exact (Option.some.inj b1).symm
+    subst hgd
+    have hm' : m' = m := by rw [a4, e3] at b3; exact (Option.some.inj b3).symm
+    subst hm'
+    exact b4 a1
+  · exact ⟨h, ⟨hd, hh⟩, hs⟩
+
 /-- non-vacuity: two waiters behind a holder are served in arrival order -/
 example :
     let s := run (State.init .hashMap) [.lookup 1 7, .lookup 2 7, .enqueue 2, .lookup 3 7, .enqueue 3, .stamp 1, .release 1]
